@@ -8,7 +8,7 @@ import time
 
 sys.path.insert(0, os.path.dirname(os.path.dirname(os.path.abspath(__file__))))
 
-from common import Ctx  # noqa: E402
+from common import Ctx, InfraError  # noqa: E402
 from oracle import c05ref as ref  # noqa: E402
 from translate import c05gen  # noqa: E402
 
@@ -709,6 +709,156 @@ class Program:
         return f"err {err_kind(self.error)} " + dump_heap(self.heap)
 
 
+def dec_pairs(t: str):
+    t = t.strip()
+    return [] if t in ("-", "") else [tuple(int(x) for x in e.split(".")) for e in t.split(",")]
+
+
+def dec_k(t: str):
+    a, b = t.split(":")
+    return (int(a), int(b))
+
+
+def dec_items(t: str):
+    t = t.strip()
+    if t in ("-", ""):
+        return []
+    out = []
+    for e in t.split("&"):
+        c, l = e.split("@")
+        out.append((dec_pairs(l), dec_k(c)))
+    return out
+
+
+def real_program(text: str) -> str:
+    """deterministic interpreter of a `c05prog` request on the real code (corpus / replay)"""
+    from quri_parts.core.operator import Operator, commutator, pauli_label
+
+    H = []
+    lab = lambda ps: pauli_label(set(ps))  # noqa: E731
+    sc = lambda k: complex(*k)  # noqa: E731
+    err = None
+    try:
+        for cmd in [c.strip() for c in text.split(";") if c.strip()]:
+            w = cmd.split()
+            op = w[0]
+            if op == "new":
+                H.append(Operator([(lab(ps), sc(c)) for ps, c in dec_items(w[1])]))
+            elif op == "copy":
+                H.append(H[int(w[1])].copy())
+            elif op == "add":
+                H.append(H[int(w[1])] + H[int(w[2])])
+            elif op == "sub":
+                H.append(H[int(w[1])] - H[int(w[2])])
+            elif op == "mul":
+                H.append(H[int(w[1])] * H[int(w[2])])
+            elif op == "comm":
+                H.append(commutator(H[int(w[1])], H[int(w[2])]))
+            elif op == "smul":
+                H.append(H[int(w[1])] * sc(dec_k(w[2])))
+            elif op == "div":
+                H.append(H[int(w[1])] / sc(dec_k(w[2])))
+            elif op == "herm":
+                H.append(H[int(w[1])].hermitian_conjugated())
+            elif op == "iadd":
+                H[int(w[1])] += H[int(w[2])]
+            elif op == "isub":
+                H[int(w[1])] -= H[int(w[2])]
+            elif op == "idiv":
+                H[int(w[1])] /= sc(dec_k(w[2]))
+            elif op == "addterm":
+                H[int(w[1])].add_term(lab(dec_pairs(w[2])), sc(dec_k(w[3])))
+            elif op == "setconst":
+                H[int(w[1])].constant = sc(dec_k(w[2]))
+            elif op == "setitem":
+                H[int(w[1])][lab(dec_pairs(w[2]))] = sc(dec_k(w[3]))
+            else:
+                raise InfraError(f"unknown program command {cmd!r}")
+    except InfraError:
+        raise
+    except Exception as e:  # noqa: BLE001
+        err = e
+    return ("ok " if err is None else f"err {err_kind(err)} ") + dump_heap(H)
+
+
+def real_request(req: str):
+    """real-code answer to one driver request of the kinds stored in corpus / replay files"""
+    from quri_parts.core.operator import PauliLabel, pauli_label, pauli_product
+
+    cmd, _, arg = req.partition(" ")
+    try:
+        if cmd == "c05prog":
+            return real_program(arg)
+        if cmd == "c05mk":
+            l = PauliLabel(dec_pairs(arg))
+            return f"ok {enc_pairs(canon_label(l))}"
+        if cmd == "c05str":
+            st = "" if arg.strip() == "-" else "".join(chr(int(x)) for x in arg.split(","))
+            return f"ok {enc_pairs(canon_label(pauli_label(st)))}"
+        if cmd == "c05prod":
+            a, b = arg.split()
+            r, ph = pauli_product(pauli_label(set(dec_pairs(a))), pauli_label(set(dec_pairs(b))))
+            e = {complex(1, 0): 0, complex(0, 1): 1, complex(-1, 0): 2, complex(0, -1): 3}.get(complex(ph))
+            return f"{enc_pairs(canon_label(r))} {e if e is not None else ph}"
+    except InfraError:
+        raise
+    except Exception as e:  # noqa: BLE001
+        return "err " + err_kind(e)
+    return None
+
+
+def run_requests(ctx: Ctx, reqs, origin: str):
+    """corpus / replay: requests are answered by the real code and by the model and compared"""
+    reqs = [r for r in reqs if real_request(r) is not None]
+    if not reqs:
+        return
+    resp = ctx.driver(reqs, entry=ENTRY)
+    for rq, m in zip(reqs, resp):
+        real = real_request(rq)
+        ctx.traces += 1
+        ctx.case((origin, rq), sample=None)
+        mm = m
+        if rq.startswith(("c05mk", "c05str")) and m.startswith("ok"):
+            mm = " ".join(m.split(" ")[:2])
+        if real != mm:
+            ctx.disagree(origin, {"request": rq}, real[:600], m[:600])
+        print(f"[{origin}] {rq[:100]}\n    real : {real[:200]}\n    model: {m[:200]}") if origin == "replay" else None
+
+
+def corpus_requests():
+    import glob
+    import json
+
+    out = []
+    for f in sorted(glob.glob(os.path.join(os.path.dirname(os.path.dirname(os.path.abspath(__file__))), "corpus", "C05", "*.json"))):
+        with open(f) as fh:
+            out += json.load(fh).get("requests", [])
+    return out
+
+
+def replay_requests(path):
+    """driver requests that can be rebuilt from a replay file written by Ctx.finish"""
+    import json
+
+    with open(path) as fh:
+        r = json.load(fh)
+    out = []
+    for it in r.get("witnesses", []) + r.get("disagreements", []):
+        inp = it.get("input") or {}
+        if isinstance(inp, dict):
+            if "program" in inp:
+                out.append(inp["program"])
+            elif "request" in inp:
+                out.append(inp["request"])
+            elif "string" in inp:
+                out.append("c05str " + enc_chars(inp["string"]))
+            elif "pairs" in inp:
+                out.append("c05mk " + enc_pairs([tuple(x) for x in inp["pairs"]]))
+            elif "p" in inp and "q" in inp:
+                out.append(f"c05prod {enc_pairs([tuple(x) for x in inp['p']])} {enc_pairs([tuple(x) for x in inp['q']])}")
+    return out
+
+
 def unordered(view: str):
     """order-insensitive view of a heap dump"""
     out = []
@@ -925,7 +1075,8 @@ def replay_isub_witness(ctx: Ctx):
             ctx.witness("raises", f"`op -= op` raises RuntimeError: {e}", {"op": "1*X0 + 2*Y1"})
             return
         ctx.witness(ISUB_KEY, "`op -= op` raises RuntimeError (dictionary changed size during iteration) and leaves op partially updated",
-                    {"op": "1*X0 + 2*Y1", "statement": "op -= op"}, {"error": str(e), "after": dump_op(a)})
+                    {"op": "1*X0 + 2*Y1", "statement": "op -= op", "program": "c05prog new 1:0@0.1&2:0@1.2 ; isub 0 0"},
+                    {"error": str(e), "after": dump_op(a)})
     ctx.traces += 1
 
 
@@ -1102,6 +1253,10 @@ def run(ctx: Ctx, replay=None) -> int:
         replay_identity_witness(ctx)
     driver_ok = ok or _driver_builds(ctx)
     if driver_ok:
+        with ctx.timed("corpus"):
+            run_requests(ctx, corpus_requests(), "corpus")
+            if replay:
+                run_requests(ctx, replay_requests(replay), "replay")
         with ctx.timed("correspond"):
             reqs, metas = [], []
             corr_labels(ctx, reqs, metas)
